@@ -38,7 +38,7 @@ SCALAR_KINDS = {
     "sum", "dot", "matmul", "norm", "qf", "dotQ", "dotP", "msum", "fro", "trace",
 }
 VECTOR_KINDS = {
-    "vec", "slice", "row", "col", "diag", "diagf", "arr", "list", "tuple", "vparv", "vbin",
+    "vec", "slice", "row", "col", "rows", "cols", "diag", "diagf", "arr", "list", "tuple", "vparv", "vbin",
     "vrbin", "vneg", "vpow", "vfn", "mv", "Mv", "velems",
 }
 MATRIX_KINDS = {"mat", "T", "MT", "sub", "dmat", "arr2", "list2", "mbin", "mrbin", "mneg"}
@@ -166,6 +166,10 @@ def render(n) -> str:
         return f"{render(n[1])}[{n[2]},:]"
     if k == "col":
         return f"{render(n[1])}[:,{n[2]}]"
+    if k in ("rows", "cols"):
+        a, b, c = n[3], n[4], n[5]
+        sl = f"{'' if a is None else a}:{'' if b is None else b}" + (f":{c}" if c is not None else "")
+        return f"{render(n[1])}[{n[2]},{sl}]" if k == "rows" else f"{render(n[1])}[{sl},{n[2]}]"
     if k == "diag":
         return f"{render(n[1])}.diagonal()"
     if k == "diagf":
